@@ -657,9 +657,14 @@ func handleQueryCustom(app *BaseApp, path []string, req abci.RequestQuery) (res 
 			),
 		).QueryResult()
 	}
+	// the state is that of req.Height, so the context must say so too: keepers pick the decoding
+	// rules (legacy or current record formats) by the context's height. The check state's header
+	// carries the latest height, and no height at all between a restart and the first commit.
+	header := app.checkState.ctx.BlockHeader()
+	header.Height = req.Height
 	// cache wrap the commit-multistore for safety
 	ctx := sdk.NewContext(
-		newMS, app.checkState.ctx.BlockHeader(), true, app.logger,
+		newMS, header, true, app.logger,
 	).WithBlockStore(app.checkState.ctx.BlockStore()).WithAppVersion(app.appVersion)
 
 	// Passes the rest of the path as an argument to the querier.
